@@ -919,6 +919,12 @@ func main() {
 	w("")
 	for _, s := range sk {
 		w("def skel_%s : String := %s", ident(s[0]), lstr(s[1]))
+		// the same as a list, for the theorems that compute on the order of the calls
+		var calls []string
+		if s[1] != "" {
+			calls = strings.Split(s[1], " ; ")
+		}
+		w("def calls_in_%s : List String := %s", ident(s[0]), llist(calls))
 	}
 	for _, d := range dfs {
 		w("def defers_%s : String := %s", ident(d[0]), lstr(d[1]))
